@@ -880,3 +880,28 @@ func sameNameUnnamed(r *rand.Rand) Scenario {
 	}
 	return s
 }
+
+// manyInterfaces: a target with three or four interface-typed, type-only
+// parameters (I0, I1, I2 and I0 or I1 again under a name), every one of them
+// satisfied by supplied implementations (one T1 for all, or one value each),
+// optionally through a single-input converter. Derivable; scope (a).
+func manyInterfaces(r *rand.Rand) Scenario {
+	var s Scenario
+	s.Target = FuncSpec{In: []Label{{Type: tI0}, {Type: tI1}, {Type: tI2}}, InForm: r.Intn(3)}
+	if r.Intn(2) == 0 {
+		s.Target.In = append(s.Target.In, Label{Name: "n", Type: pick(r, []int{tI0, tI1})})
+		s.Target.InForm = 1 + r.Intn(2)
+	}
+	r.Shuffle(len(s.Target.In), func(a, b int) { s.Target.In[a], s.Target.In[b] = s.Target.In[b], s.Target.In[a] })
+	switch r.Intn(3) {
+	case 0:
+		s.Inputs = []Label{{Type: 1}}
+	case 1:
+		s.Inputs = []Label{{Type: 0}, {Type: 2}, {Type: 1}}
+	default:
+		// T1 comes out of a converter
+		s.Inputs = []Label{{Type: 3}, {Type: 0}}
+		s.Convs = []FuncSpec{posFn([]int{3}, []int{1})}
+	}
+	return s
+}
